@@ -21,6 +21,8 @@ type listModel struct {
 	nonest bool
 	// rejectB: a push policy rejects string values ending in "b" (used by the C10 scenarios)
 	rejectB bool
+	// reject: a push policy rejects exactly these values (with one and the same error value every time)
+	reject func(v any) bool
 }
 
 func (m *listModel) clone() *listModel {
@@ -41,6 +43,9 @@ func (m *listModel) push(vals ...any) {
 		}
 		if s, ok := v.(string); ok && m.rejectB && strings.HasSuffix(s, "b") {
 			break // the policy rejects it: the batch stops here
+		}
+		if m.reject != nil && m.reject(v) {
+			break
 		}
 		m.items = append(m.items, v)
 	}
